@@ -224,6 +224,12 @@ class RelativeSequence(AbstractSequence):
             while remaining_capacity >= 0:
                 # Check if end-of-sequence was reached prematurely
                 if len(working_memory) == 0:
+                    # Control and program changes waiting on the final tick have no next sequence to go to, they stay at
+                    # the end of this one (signatures there would not govern anything)
+                    current_sequence._messages.extend(
+                        msg for msg in next_sequence_queue
+                        if msg.message_type in [MessageType.CONTROL_CHANGE, MessageType.PROGRAM_CHANGE])
+
                     if len(current_sequence._messages) > 0:
                         split_sequences.append(current_sequence)
                         current_sequence = next_sequence
